@@ -50,6 +50,9 @@ PURE_SUFFIX = (
     "::contains_key", "::leading_zeros", "::trailing_zeros", "::count_ones", "::round", "::floor", "::ceil",
     "::trunc", "::round_ties_even", "::abs", "::pow", "::checked_pow", "::map", "::sum", "::collect",
     "::chunks", "::Some", "::Ok", "::Err",
+    "::as_mut", "::as_deref", "::as_deref_mut", "::by_ref", "::get_mut", "::get_ref", "::into_inner", "::borrow", "::borrow_mut",
+    "::ok_or", "::ok_or_else", "::unwrap_or_else", "::map_err", "::filter", "::zip", "::rev", "::skip", "::take_while", "::iter_mut", "::first_mut",
+    "::last_mut", "::to_owned", "::to_string", "::as_bytes", "::as_str",
 )
 # note: constructors (`::new`, `::with_capacity`, `::default`) are allocation sites: two calls are two objects, so they are not pure here
 
@@ -68,6 +71,13 @@ PAYLOAD_TRANSPARENT = (
     "core::result::Result::<T, E>::map_err", "core::option::Option::<T>::expect",
     "core::option::Option::<T>::unwrap", "core::result::Result::<T, E>::unwrap",
     "core::result::Result::<T, E>::expect", "core::result::Result::<T, E>::ok",
+)
+
+
+# combinators that transform the payload of an Option/Result with a closure (modelled at payload level, like `?`)
+MAP_LIKE = (
+    "core::result::Result::<T, E>::map", "core::option::Option::<T>::map",
+    "core::result::Result::<T, E>::and_then", "core::option::Option::<T>::and_then",
 )
 
 
@@ -360,7 +370,7 @@ class Event:
 
 
 class State:
-    __slots__ = ("env", "pos", "under", "events", "ctrl", "loops", "vers")
+    __slots__ = ("env", "pos", "under", "events", "ctrl", "loops", "vers", "retval", "sc")
 
     def __init__(self):
         self.env = {}
@@ -370,6 +380,8 @@ class State:
         self.ctrl = None   # None | 'break' | 'continue'
         self.loops = ()
         self.vers = 0
+        self.retval = None
+        self.sc = ()
 
     def fork(self):
         s = State()
@@ -380,6 +392,8 @@ class State:
         s.ctrl = self.ctrl
         s.loops = self.loops
         s.vers = self.vers
+        s.retval = self.retval
+        s.sc = self.sc
         return s
 
 
@@ -419,6 +433,8 @@ class FnAnalysis:
         self.var_types = {}
         self.closure_depth = 0
         self.alias = {}
+        self.frames = []          # stack of callee paths being inlined
+        self.no_inline = getattr(facts, "no_inline", None)
         self.cur_clos = None
         self._run()
 
@@ -428,6 +444,10 @@ class FnAnalysis:
         return self.uid
 
     def ev(self, st, kind, node, **d):
+        if self.frames:
+            d["inl"] = tuple(self.frames)
+        if st.sc and kind in ("arith", "index", "call", "cast"):
+            d["sc"] = st.sc
         e = Event(kind, node, d, st.loops, self.cur_clos)
         st.events.append(e)
         return e
@@ -462,6 +482,11 @@ class FnAnalysis:
                 self.params[name] = var
 
     def finish(self, st, value, node):
+        if self.frames:
+            st.ctrl = "ret"
+            st.retval = value
+            self._ret_states.append(st)
+            return
         kind = self.exit_kind(value)
         self.ev(st, "exit", node, exit=kind, value=value)
         self.paths.append(Path(st.events, kind, value, st.env))
@@ -526,8 +551,10 @@ class FnAnalysis:
         e = src
         while e is not None:
             k = e["k"]
-            if k in ("Ref",):
+            if k in ("Ref", "Try"):
                 e = e["e"]
+            elif k == "MCall" and (e.get("fn") in PAYLOAD_TRANSPARENT or (e.get("fn") or "").endswith(("Option::<T>::as_mut", "Option::<T>::as_deref_mut", "::by_ref", "::borrow_mut"))):
+                e = e["recv"]
             elif k == "Un" and e["op"] == "*":
                 e = e["e"]
             elif k == "Local":
@@ -736,6 +763,19 @@ class FnAnalysis:
         return outs
 
     def e_Bin(self, e, st):
+        if e["op"] in ("&&", "||"):
+            # the right operand is evaluated only when the left one is true (&&) / false (||): remember that while evaluating it
+            outs = []
+            for s, l in self.eval(e["l"], st):
+                if s.ctrl is not None:
+                    outs.append((s, ("unit",)))
+                    continue
+                saved = s.sc
+                s.sc = saved + ((l, e["op"] == "&&"),)
+                for s2, r in self.eval(e["r"], s):
+                    s2.sc = saved
+                    outs.append((s2, ("bin", e["op"], l, r)))
+            return outs
         outs = []
         for s, vals in self.eval_seq([e["l"], e["r"]], st):
             if s.ctrl is not None:
@@ -882,6 +922,20 @@ class FnAnalysis:
             if s.ctrl is not None:
                 outs.append((s, v))
                 continue
+            vv = v
+            if isinstance(vv, tuple) and vv and vv[0] == "errprop":
+                # the inlined callee already took its error exit on this path
+                self.ev(s, "decide", e, how="try", outcome=False, cond=v, cond_node=e["e"])
+                self.finish(s, v, e)
+                continue
+            if isinstance(vv, tuple) and vv and vv[0] == "call" and vv[1] == "core::result::Result::Err" and vv[3] is None:
+                self.ev(s, "decide", e, how="try", outcome=False, cond=v, cond_node=e["e"])
+                self.finish(s, ("errprop", v), e)
+                continue
+            if isinstance(vv, tuple) and vv and vv[0] == "call" and vv[1] == "core::result::Result::Ok" and len(vv[2]) == 1 and vv[3] is None and self.frames_seen_ok(e):
+                self.ev(s, "decide", e, how="try", outcome=True, cond=v, cond_node=e["e"])
+                outs.append((s, vv[2][0]))
+                continue
             # the inner expression may be a local binding of a Result; only a syntactic Ok(..) can never fail
             s_err = s.fork()
             self.ev(s_err, "decide", e, how="try", outcome=False, cond=v, cond_node=e["e"])
@@ -906,6 +960,9 @@ class FnAnalysis:
     def e_Closure(self, e, st):
         # evaluate the body out of line for its events; control flow inside does not affect the path
         cid = e.get("id")
+        if not hasattr(self, "clos_nodes"):
+            self.clos_nodes = {}
+        self.clos_nodes[cid] = e
         sub = st.fork()
         sub.events = []
         saved = self.cur_clos
@@ -918,12 +975,18 @@ class FnAnalysis:
                 self.bind(sub, p, V("clos%s:%s" % (cid, fmt_pat(p))))
             outs = self.eval(e["body"], sub)
             streams = []
+            per_path = []
             for s, v in outs:
                 streams.append(s.events)
                 rets.append(v)
+                per_path.append((v, [x for x in s.events if x.kind == "decide"]))
             for p in self.paths:
                 streams.append(p.events)
                 rets.append(p.value)
+                per_path.append((p.value, [x for x in p.events if x.kind == "decide"]))
+            if not hasattr(self, "clos_paths"):
+                self.clos_paths = {}
+            self.clos_paths[cid] = per_path
         finally:
             self.paths = saved_paths
             self.cur_clos = saved
@@ -1071,6 +1134,8 @@ class FnAnalysis:
                     atom = V("loop%s:%s" % (lid, self.var_names.get(var, var)))
                     if var in s2.env and s2.env[var] != atom:
                         self.havoc_src.setdefault(atom, set()).add(s2.env[var])
+                if s2.ctrl == "ret":
+                    continue   # returned out of an inlined callee from inside the loop: already recorded
                 s2.loops = s2.loops[:-1]
                 how = s2.ctrl or "end"
                 s2.ctrl = None
@@ -1104,6 +1169,57 @@ class FnAnalysis:
     def e_Loop(self, e, st):
         return self.loop_common(e, st, None, has_zero=False)
 
+    def frames_seen_ok(self, e):
+        """a `?` applied directly to an inlined callee's Ok(..) value cannot fail; a hand-written `Ok(x)?` is left alone (never happens)"""
+        inner = e["e"]
+        while inner is not None and inner["k"] in ("Await",):
+            inner = inner["e"]
+        return inner is not None and inner["k"] in ("Call", "MCall") and inner.get("fn") in getattr(self, "_inlinable", ())
+
+    def can_inline(self, fn):
+        if len(self.frames) >= 3 or fn in self.frames or fn == self.fn["path"]:
+            return False
+        pol = self.no_inline
+        if pol is None:
+            return False
+        return pol(fn)
+
+    def inline_call(self, e, st, fn, arg_nodes, vals):
+        """evaluate a small effect-free private helper in place: its decisions, arithmetic and comparisons become part of the caller's path and
+        its return term replaces the opaque call result.  Returns [(state, value)] or None when inlining was abandoned."""
+        callee = self.facts.fn(fn)
+        if callee is None or callee["body"] is None or len(callee["params"]) != len(vals):
+            return None
+        trial = st.fork()
+        saved_paths, saved_ret = self.paths, getattr(self, "_ret_states", [])
+        self._ret_states = []
+        self.frames.append(fn)
+        try:
+            for prm, node, v in zip(callee["params"], arg_nodes, vals):
+                self.bind(trial, prm["pat"], v, node)
+            outs = self.eval(callee["body"], trial)
+            res = []
+            for s, v in outs:
+                if s.ctrl is None:
+                    res.append((s, v))
+            for s in self._ret_states:
+                v = s.retval
+                s.ctrl = None
+                s.retval = None
+                res.append((s, v))
+        except PathExplosion:
+            res = None
+        finally:
+            self.frames.pop()
+            self._ret_states = saved_ret
+            self.paths = saved_paths
+        if res is None or len(res) == 0 or len(res) > 16:
+            return None
+        if not hasattr(self, "_inlinable"):
+            self._inlinable = set()
+        self._inlinable.add(fn)
+        return res
+
     # -- calls
     def e_Call(self, e, st):
         exprs = ([e["f"]] if "f" in e else []) + e["args"]
@@ -1114,7 +1230,16 @@ class FnAnalysis:
                 continue
             if "f" in e:
                 vals = vals[1:]
-            outs.append((s, self.do_call(e, s, e.get("fn") or ("<indirect:%s>" % e.get("fvar", "?")), None, e["args"], vals)))
+            fn = e.get("fn") or ("<indirect:%s>" % e.get("fvar", "?"))
+            if self.can_inline(fn):
+                res = self.inline_call(e, s, fn, e["args"], vals)
+                if res is not None:
+                    for s2, v2 in res:
+                        self.ev(s2, "call", e, fn=fn, resolved=e.get("resolved"), args=tuple(vals), arg_nodes=e["args"], recv=None, ret=v2, effects=(),
+                                tys=[a["ty"] for a in e["args"]], targs=e.get("targs"), pos_before={}, pos_after={}, argkeys=[frozenset() for _ in e["args"]], direct=None, inlined=True)
+                        outs.append((s2, v2))
+                    continue
+            outs.append((s, self.do_call(e, s, fn, None, e["args"], vals)))
         return outs
 
     def e_MCall(self, e, st):
@@ -1124,7 +1249,16 @@ class FnAnalysis:
             if s.ctrl is not None:
                 outs.append((s, ("unit",)))
                 continue
-            outs.append((s, self.do_call(e, s, e.get("fn") or ("<method:%s>" % e["name"]), e["recv"], exprs, vals)))
+            fn = e.get("fn") or ("<method:%s>" % e["name"])
+            if self.can_inline(fn):
+                res = self.inline_call(e, s, fn, exprs, vals)
+                if res is not None:
+                    for s2, v2 in res:
+                        self.ev(s2, "call", e, fn=fn, resolved=e.get("resolved"), args=tuple(vals), arg_nodes=exprs, recv=e["recv"], ret=v2, effects=(),
+                                tys=[a["ty"] for a in exprs], targs=e.get("targs"), pos_before={}, pos_after={}, argkeys=[frozenset() for _ in exprs], direct=None, inlined=True)
+                        outs.append((s2, v2))
+                    continue
+            outs.append((s, self.do_call(e, s, fn, e["recv"], exprs, vals)))
         return outs
 
     def e_FormatArgs(self, e, st):
@@ -1153,6 +1287,27 @@ class FnAnalysis:
             op, flavour = ARITH_METHODS[name]
             self.ev(st, "arith", e, op=op, l=vals[0], r=vals[1], lty=tys[0], rty=tys[1], flavour=flavour, ty=tys[0])
             return ("bin", op, vals[0], vals[1])
+        if fn in MAP_LIKE and len(vals) == 2 and isinstance(vals[1], tuple) and vals[1] and vals[1][0] == "clos":
+            node = getattr(self, "clos_nodes", {}).get(vals[1][1])
+            if node is not None and len(node["params"]) == 1:
+                sub = st.fork()
+                n0 = len(sub.events)
+                saved_paths = self.paths
+                self.paths = []
+                try:
+                    self.bind(sub, node["params"][0], vals[0], arg_nodes[0] if arg_nodes else None)
+                    outs = [(s, v) for s, v in self.eval(node["body"], sub) if s.ctrl is None]
+                    clean = not self.paths
+                finally:
+                    self.paths = saved_paths
+                if clean and len(outs) == 1:
+                    s2, v2 = outs[0]
+                    # adopt the closure's bindings and events (it ran exactly once on this path)
+                    st.env, st.under, st.pos, st.vers = s2.env, s2.under, s2.pos, s2.vers
+                    st.events.extend(s2.events[n0:])
+                    self.ev(st, "call", e, fn=fn, args=tuple(vals), arg_nodes=arg_nodes, recv=recv_node, ret=v2, effects=(), uid=None, tys=tys,
+                            argkeys=[frozenset() for _ in arg_nodes], pos_before={}, pos_after={}, direct=None, targs=e.get("targs"), resolved=e.get("resolved"))
+                    return v2
         if fn in PAYLOAD_TRANSPARENT and vals:
             self.ev(st, "call", e, fn=fn, args=tuple(vals), arg_nodes=arg_nodes, recv=recv_node, ret=vals[0], effects=(), uid=None, tys=tys,
                     argkeys=[frozenset() for _ in arg_nodes], pos_before={}, pos_after={}, direct=None, targs=e.get("targs"), resolved=e.get("resolved"))
@@ -1226,6 +1381,8 @@ class FnAnalysis:
                     effects.append(("unknown", u))
         if ret is None and name == "len" and len(vals) == 1:
             ret = ("call", "len", (vals[0],), None)
+        if ret is None and name == "first" and len(vals) == 1 and "slice" in fn:
+            ret = ("idx", vals[0], C(0))        # Option payload level: `s.first()` is `s[0]` when it is Some
         if ret is None:
             pure = fn.endswith(PURE_SUFFIX) and not effects
             ret = ("call", fn, tuple(vals), None if pure else self.fresh())
@@ -1289,6 +1446,9 @@ def _const_truth(v):
         return {"==": a == b, "!=": a != b, "<": a < b, "<=": a <= b, ">": a > b, ">=": a >= b}[v[1]]
     if isinstance(v, tuple) and v and v[0] == "lit" and v[1] == "bool" and isinstance(v[2], bool):
         return v[2]
+    if isinstance(v, tuple) and v and v[0] == "un" and v[1] == "!":
+        inner = _const_truth(v[2])
+        return None if inner is None else (not inner)
     return None
 
 
@@ -1434,10 +1594,12 @@ def _fn_effects(facts, f, summ):
         if not grew:
             break
     out = {}
+    streamish = set(i for i, p in enumerate(f["params"]) if is_streamlike_ty(p.get("ty") or p["pat"].get("ty") or ""))
 
     def add(ps, kind):
         for i in ps:
-            out.setdefault(i, set()).add(kind)
+            if i in streamish:
+                out.setdefault(i, set()).add(kind)
 
     for n in walk(f["body"]):
         if n["k"] not in ("Call", "MCall") or not n.get("fn"):
